@@ -589,6 +589,112 @@ example : ∏ i : Fin 2, (![4, 8] : Fin 2 → ℚ) i ^ (![3, -2] : Fin 2 → ℤ
   simp [Fin.prod_univ_two]; norm_num
 
 
+/-! ## backward extension: "vanishes for all sufficiently large n" (bases are units) -/
+
+section Backward
+variable {K' : Type*} [CommRing K']
+
+/-- a sequence annihilated by a polynomial with invertible constant coefficient that vanishes from
+some index on vanishes everywhere (run the recurrence backwards) -/
+theorem eq_zero_of_ann_of_eventually {p : K'[X]} (hp0 : IsUnit (p.coeff 0)) {u : ℕ → K'}
+    (h : Ann p u) (N : ℕ) (hN : ∀ n, N ≤ n → u n = 0) : ∀ n, u n = 0 := by
+  have key : ∀ d n, n + d = N → u n = 0 := by
+    intro d
+    induction d using Nat.strong_induction_on with
+    | _ d ih =>
+      intro n hn
+      by_cases hd : d = 0
+      · exact hN n (by omega)
+      have hlater : ∀ i, 0 < i → u (n + i) = 0 := by
+        intro i hi
+        by_cases hge : N ≤ n + i
+        · exact hN _ hge
+        · exact ih (d - i) (by omega) (n + i) (by omega)
+      have := congrFun h n
+      rw [aeval_shift_apply, Polynomial.sum_over_range' _ (by simp) (p.natDegree + 1) (by omega),
+        Finset.sum_range_succ'] at this
+      have hz : ∑ x ∈ Finset.range p.natDegree, p.coeff (x + 1) * u (n + (x + 1)) = 0 :=
+        Finset.sum_eq_zero (fun i _ => by rw [hlater (i + 1) (Nat.succ_pos i), mul_zero])
+      rw [hz, zero_add, Nat.add_zero] at this
+      exact (hp0.mul_right_eq_zero).mp (by simpa using this)
+  intro n
+  by_cases hn : N ≤ n
+  · exact hN n hn
+  · exact key (N - n) n (by omega)
+
+lemma coeff_zero_annPoly (T : Shape K') : (annPoly T).coeff 0 = (T.map (fun t => (-t.2.1) ^ t.2.2)).prod := by
+  induction T with
+  | nil => simp
+  | cons t T ih =>
+    rw [annPoly_cons, Polynomial.mul_coeff_zero, ih, List.map_cons, List.prod_cons]
+    congr 1
+    rw [Polynomial.coeff_zero_eq_eval_zero]
+    simp
+
+/-- an exponential polynomial whose bases are units and which vanishes from some index on is zero -/
+theorem termSum_eq_zero_of_eventually (T : Shape K') (hT : T.WF) (hu : ∀ t ∈ T, IsUnit t.2.1) (N : ℕ)
+    (hN : ∀ n, N ≤ n → termSum T n = 0) : ∀ n, termSum T n = 0 := by
+  refine eq_zero_of_ann_of_eventually ?_ (ann_termSum hT) N hN
+  rw [coeff_zero_annPoly]
+  clear hN hT
+  induction T with
+  | nil => simp
+  | cons t T ih =>
+    rw [List.map_cons, List.prod_cons]
+    exact ((hu t (List.mem_cons_self ..)).neg.pow _).mul
+      (ih (fun s hs => hu s (List.mem_cons_of_mem _ hs)))
+
+end Backward
+
+section BackwardG
+variable {φ : α → K} [DecidableEq α]
+
+lemma mem_insertT_base [DecidableEq K] (t : K[X] × K × ℕ) (T : Shape K) :
+    ∀ s ∈ insertT t T, s.2.1 = t.2.1 ∨ ∃ s' ∈ T, s.2.1 = s'.2.1 := by
+  induction T with
+  | nil =>
+    intro s hs
+    simp only [insertT, List.mem_singleton] at hs
+    exact Or.inl (by rw [hs])
+  | cons a T ih =>
+    intro s hs
+    rw [insertT] at hs
+    split at hs
+    · rcases List.mem_cons.mp hs with rfl | hs
+      · exact Or.inr ⟨a, List.mem_cons_self .., rfl⟩
+      · exact Or.inr ⟨s, List.mem_cons_of_mem _ hs, rfl⟩
+    · rcases List.mem_cons.mp hs with rfl | hs
+      · exact Or.inr ⟨s, List.mem_cons_self .., rfl⟩
+      · rcases ih s hs with h | ⟨s', hs', h⟩
+        · exact Or.inl h
+        · exact Or.inr ⟨s', List.mem_cons_of_mem _ hs', h⟩
+
+lemma groupShapeG_bases [DecidableEq K] (ts : List (GTerm α)) :
+    ∀ s ∈ groupShapeG φ ts, ∃ t ∈ ts, s.2.1 = φ t.base := by
+  induction ts with
+  | nil => intro s hs; simp [groupShapeG] at hs
+  | cons t ts ih =>
+    intro s hs
+    rw [groupShapeG, List.foldr_cons, ← groupShapeG] at hs
+    rcases mem_insertT_base _ _ s hs with h | ⟨s', hs', h⟩
+    · exact ⟨t, List.mem_cons_self .., h⟩
+    · obtain ⟨t', ht', h'⟩ := ih s' hs'
+      exact ⟨t', List.mem_cons_of_mem _ ht', h.trans h'⟩
+
+/-- a term list with unit bases that vanishes from some index on vanishes for every `n` -/
+theorem evalK_eq_zero_of_eventually (ts : List (GTerm α)) (hu : ∀ t ∈ ts, IsUnit (φ t.base)) (N : ℕ)
+    (hN : ∀ n, N ≤ n → evalK φ ts n = 0) : ∀ n, evalK φ ts n = 0 := by
+  classical
+  intro n
+  rw [← termSum_groupShapeG]
+  refine termSum_eq_zero_of_eventually (groupShapeG φ ts) (groupShapeG_wf ts) ?_ N
+    (fun m hm => by rw [termSum_groupShapeG]; exact hN m hm) n
+  intro s hs
+  obtain ⟨t, ht, h⟩ := groupShapeG_bases ts s hs
+  rw [h]; exact hu t ht
+
+end BackwardG
+
 /-! ## C07: the relation space of bounded degree and the reported ideal -/
 
 section C07
@@ -845,6 +951,52 @@ theorem kernel_vector_is_relation [DecidableEq α] (I : Interp R φ) (cfs : Env 
     simp only [I.hom.map_evalTerms]
   rw [List.zipWith_map_right, hf] at hsum
   exact hsum
+
+/-- **C07 in the wording of the property** ("vanishes for all sufficiently large `n`"): if the bases
+occurring in the term lists of the monomials are units of `K` (non-zero, when `K` is a field), a
+polynomial over the monomials of degree ≤ k that vanishes on the goal sequences from *some* index on
+lies in the ideal of the reported basis whenever `relationsCheck` accepts. -/
+theorem c07_validator_sound_eventually [DecidableEq α] (I : Interp R φ) (cfs : Env α) (k n₀ : ℕ)
+    (basis : List MPoly) (B : Mat) (free pivR pivC : List ℕ) (cofs : List (List MPoly))
+    (h : (relationsCheck R cfs k n₀ basis B free pivR pivC cofs).ok = true)
+    (x : List ℚ) (hx : x.length = (monosUpTo (cfs.map (fun gc => gc.1)) k).length)
+    (hu : ∀ t ∈ relTerms R cfs (monosUpTo (cfs.map (fun gc => gc.1)) k) x, IsUnit (φ t.base))
+    (hrel : ∃ N, ∀ n, N ≤ n → aevalP (fun g => evalK φ (envOf cfs g) n)
+      (polyOfVec (monosUpTo (cfs.map (fun gc => gc.1)) k) x) = 0) :
+    toMv (polyOfVec (monosUpTo (cfs.map (fun gc => gc.1)) k) x) ∈
+      Ideal.span {q | ∃ g ∈ basis, q = toMv g} := by
+  obtain ⟨N, hN⟩ := hrel
+  refine c07_validator_sound I cfs k n₀ basis B free pivR pivC cofs h x hx (fun n _ => ?_)
+  rw [← evalK_relTerms I.hom]
+  exact evalK_eq_zero_of_eventually _ hu N (fun m hm => by rw [evalK_relTerms I.hom]; exact hN m hm) n
+
+/-! ### non-vacuity of the C07 validator -/
+
+/-- `x = 2^n`, `y = 4^n`, k = 2: monomials `1, y, y², x, xy, x²`; the kernel of the 5×6 window matrix is
+spanned by `x² − y`, which is `(−1)·(y − x²)`: `relationsCheck` accepts … -/
+example : (relationsCheck ratOps [("x", [⟨1, 0, 2⟩]), ("y", [⟨1, 0, 4⟩])] 2 0
+    [[([("y", 1)], 1), ([("x", 2)], -1)]] [[0, -1, 0, 0, 0, 1]] [5] [0, 1, 2, 3, 4] [0, 1, 2, 3, 4]
+    [[[([], -1)]]]).ok = true := by decide +kernel
+
+/-- … hence every polynomial of degree ≤ 2 in `x, y` that vanishes on `(2^n, 4^n)` for all `n` lies
+in `⟨y − x²⟩`. -/
+example (c : List ℚ) (hc : c.length = 6)
+    (hrel : ∀ n : ℕ, 0 ≤ n → aevalP (fun g => evalK (fun q : ℚ => q)
+      (envOf [("x", [⟨1, 0, 2⟩]), ("y", [⟨1, 0, 4⟩])] g) n) (polyOfVec (monosUpTo ["x", "y"] 2) c) = 0) :
+    toMv (polyOfVec (monosUpTo ["x", "y"] 2) c) ∈
+      Ideal.span {q | ∃ g ∈ [[([("y", 1)], (1 : ℚ)), ([("x", 2)], -1)]], q = toMv g} :=
+  c07_validator_sound ratInterp [("x", [⟨1, 0, 2⟩]), ("y", [⟨1, 0, 4⟩])] 2 0 _
+    [[0, -1, 0, 0, 0, 1]] [5] [0, 1, 2, 3, 4] [0, 1, 2, 3, 4] [[[([], -1)]]]
+    (by decide +kernel) c hc hrel
+
+/-- "no invariants": `x = 2^n + 1`, `y = n`, k = 2 — the empty kernel basis is accepted, so no non-zero
+polynomial of degree ≤ 2 vanishes on the sequences (`c07_no_invariants`). -/
+example : (relationsCheck ratOps [("x", [⟨1, 0, 2⟩, ⟨1, 0, 1⟩]), ("y", [⟨1, 1, 1⟩])] 2 0 [] [] []
+    [0, 1, 2, 3, 4, 5] [0, 1, 2, 3, 4, 5] []).ok = true := by decide +kernel
+
+/-- … and the wrong claim "no invariants" for `x = 2^n`, `y = 4^n` is rejected. -/
+example : (relationsCheck ratOps [("x", [⟨1, 0, 2⟩]), ("y", [⟨1, 0, 4⟩])] 2 0 [] [] []
+    [0, 1, 2, 3, 4, 5] [0, 1, 2, 3, 4, 5] []).ok = false := by decide +kernel
 
 end C07
 
